@@ -537,6 +537,12 @@ func cutAt(r Rand, msg []byte, label string, offs ...int) []byte {
 	return clone(msg[:ok[choose(r, len(ok), label)]])
 }
 
+func setByte(b []byte, off int, v byte) {
+	if off >= 0 && off < len(b) {
+		b[off] = v
+	}
+}
+
 func putBE16(b []byte, off int, v int) {
 	if off >= 0 && off+2 <= len(b) {
 		binary.BigEndian.PutUint16(b[off:], uint16(v))
